@@ -35,8 +35,9 @@ import (
 )
 
 type input struct {
-	API    string   `json:"api"`    // RunCommand | InTotoRun
-	Exe    string   `json:"exe"`    // child | missing-abs | missing-path | none (empty args) | nil (nil args)
+	API    string   `json:"api"`    // RunCommand | InTotoRun | RunInspections (one inspection whose run is the command)
+	Exe    string   `json:"exe"`    // child (absolute path) | rel-copy (./child-copy, resolved in the run directory) |
+	//                                  rel-sub (sub/child) | missing-abs | missing-path | none (empty args) | nil (nil args)
 	Script []string `json:"script"` // tokens for the child (without the d<cwd> token the harness adds)
 	Dir    string   `json:"dir"`    // inherit | plain | space | missing
 	Cap    int64    `json:"cap"`    // model parameters (the result does not depend on them)
@@ -67,6 +68,40 @@ func prepareDirs() {
 		}
 	}
 	os.RemoveAll(filepath.Join(workDir, "missing"))
+	// the child under relative names inside the run directories (never inside workDir itself, which is
+	// the harness' own working directory: "./child-copy" resolved against the process cwd does not exist)
+	bin, err := os.ReadFile(childBin)
+	if err != nil {
+		panic(err)
+	}
+	for _, k := range []string{"plain", "space"} {
+		os.MkdirAll(filepath.Join(dirPath(k), "sub"), 0o755)
+		for _, rel := range []string{"child-copy", filepath.Join("sub", "child")} {
+			dst := filepath.Join(dirPath(k), rel)
+			if old, err := os.ReadFile(dst); err == nil && string(old) == string(bin) {
+				continue
+			}
+			tmp := dst + ".tmp"
+			if err := os.WriteFile(tmp, bin, 0o755); err != nil {
+				panic(err)
+			}
+			if err := os.Rename(tmp, dst); err != nil {
+				panic(err)
+			}
+		}
+	}
+}
+
+// startable: would exec find the command (the OS resolves a relative path with a slash against the
+// working directory of the new process, i.e. the run directory when one is given)
+func (in input) startable() bool {
+	switch in.Exe {
+	case "child":
+		return in.Dir != "missing"
+	case "rel-copy", "rel-sub":
+		return in.Dir == "plain" || in.Dir == "space"
+	}
+	return false
 }
 
 // args builds the argv handed to the implementation
@@ -85,13 +120,20 @@ func (in input) args() []string {
 	if cwd == "" {
 		cwd, _ = os.Getwd()
 	}
-	a := []string{childBin, "d" + hex.EncodeToString([]byte(cwd))}
+	exe := childBin
+	switch in.Exe {
+	case "rel-copy":
+		exe = "./child-copy"
+	case "rel-sub":
+		exe = "sub/child"
+	}
+	a := []string{exe, "d" + hex.EncodeToString([]byte(cwd))}
 	return append(a, in.Script...)
 }
 
 // ---------- running the implementation ----------
 
-var hangs int32
+var hangs, inspSeq int32
 
 func deadline() time.Duration {
 	if d := os.Getenv("VERIF_C14_DEADLINE_MS"); d != "" {
@@ -149,6 +191,24 @@ func runImpl(in input) string {
 	go func() {
 		res <- lib.Recover(func() string {
 			switch in.API {
+			case "RunInspections":
+				name := fmt.Sprintf("c14-insp-%d", atomic.AddInt32(&inspSeq, 1))
+				layout := intoto.Layout{Inspect: []intoto.Inspection{{
+					SupplyChainItem: intoto.SupplyChainItem{Name: name}, Run: args}}}
+				res, err := intoto.RunInspections(layout, dir, false, false)
+				os.Remove(fmt.Sprintf(intoto.LinkNameFormatShort, name)) // dumped into the cwd
+				if err != nil {
+					return "ERR"
+				}
+				md, ok := res[name]
+				if !ok {
+					return "NOLINK"
+				}
+				link, ok := md.GetPayload().(intoto.Link)
+				if !ok {
+					return "NOLINK"
+				}
+				return showMap(link.ByProducts)
 			case "InTotoRun":
 				md, err := intoto.InTotoRun("c14", dir, nil, nil, args, intoto.Key{}, []string{"sha256"}, nil, nil, false, false, false)
 				if err != nil {
@@ -186,9 +246,15 @@ func oracle(in input) string {
 	if in.API == "InTotoRun" && (in.Exe == "none" || in.Exe == "nil") {
 		return "OK n=0 rv=? out=? err=?" // no command: empty by-products
 	}
-	if in.Exe != "child" || in.Dir == "missing" {
+	if !in.startable() {
 		return "ERR"
 	}
+	// b<ms> (a silent descendant that keeps the streams open for a while after the command has
+	// ended) does not enter the expectation: the command has terminated, so its exact status and
+	// everything IT wrote are demanded; the descendant writes nothing, so "complete output" is
+	// unambiguous.  When the call returns is only bounded by the deadline (the property says "once
+	// the command has ended"; whether that means before or after the descendant lets go of the
+	// pipes is not settled by its text, so neither is flagged).
 	var total [2]int64
 	open := [2]bool{true, true}
 	rv := 0
@@ -262,11 +328,11 @@ func coqArgs(in input) string {
 func coqModel(in input) string {
 	dir := lib.CoqStr(dirPath(in.Dir))
 	os_ := "(os_table " + dir + " p)"
-	if in.Exe == "missing-abs" || in.Exe == "missing-path" || in.Dir == "missing" {
+	if !in.startable() {
 		os_ = "(@os_fail count_ops)"
 	}
 	fn := "run_command_src"
-	if in.API == "InTotoRun" {
+	if in.API != "RunCommand" { // RunInspections runs the inspection's command through InTotoRun
 		fn = "in_toto_run_byproducts_src"
 	}
 	sched := make([]string, len(in.Sched))
@@ -335,7 +401,7 @@ func gen(r *lib.Rng, tier string) []gcase {
 			in.Sched = append(in.Sched, rr.Intn(7))
 		}
 		// more than a pipe buffer to stderr while stdout is still open is the situation of defect F13
-		if exe == "child" && dir != "missing" && stderrBeforeStdoutEOF(script) > pipeBuf && !strings.HasPrefix(klass, "F13-") {
+		if (in.startable()) && stderrBeforeStdoutEOF(script) > pipeBuf && !strings.HasPrefix(klass, "F13-") {
 			klass = "F13-" + klass
 		}
 		out = append(out, gcase{in, klass})
@@ -425,6 +491,31 @@ func gen(r *lib.Rng, tier string) []gcase {
 	add("intotorun-start-error", I, "missing-abs", inh)
 	add("intotorun-start-error", I, child, "missing", "o1")
 
+	// a command that ends but leaves a silent descendant holding stdout/stderr for 1.5-3 s
+	add("lingering-descendant", R, child, inh, "o10", "e5", "b1500", "x0")
+	add("lingering-descendant", R, child, inh, "b2500", "o100000", "e70000")
+	add("lingering-descendant", R, child, "plain", "o7", "b2000", "x3")
+	add("lingering-descendant", R, child, inh, "e9", "b1500", "k9")
+	add("lingering-descendant", R, child, inh, "b3000", "co", "ce", "x0")
+	add("lingering-descendant", I, child, inh, "o5", "b1500", "x0")
+	add("lingering-descendant", "RunInspections", child, "space", "b1800", "e3", "x0")
+	// commands named relative to the run directory (./child-copy, sub/child): the OS resolves them
+	// against the working directory of the new process
+	for _, api := range []string{R, I, "RunInspections"} {
+		for _, exe := range []string{"rel-copy", "rel-sub"} {
+			for _, d := range []string{"plain", "space"} {
+				add("relative-command-in-rundir", api, exe, d, "o10", "e20", "x0")
+			}
+		}
+		add("relative-command-in-rundir", api, "rel-copy", "plain", "e200000", "o200000")
+		add("relative-command-not-in-cwd", api, "rel-copy", inh, "o10")
+		add("relative-command-not-in-cwd", api, "rel-sub", "missing", "o10")
+	}
+	add("relative-command-in-rundir", R, "rel-copy", "space", "o100", "x7")
+	add("relative-command-in-rundir", I, "rel-sub", "plain", "e70000", "o5", "x7")
+	add("runinspections", "RunInspections", child, "plain", "o10", "e20")
+	add("runinspections", "RunInspections", child, "space", "e"+half, "o"+half, "x0")
+
 	// --- random interleavings ---
 	for i := 0; i < nRandom; i++ {
 		rr := r.Fork()
@@ -508,7 +599,7 @@ func stderrBeforeStdoutEOF(script []string) int64 {
 }
 
 func trivial(in input) bool {
-	if in.Exe != "child" {
+	if !in.startable() {
 		return false
 	}
 	for _, t := range in.Script {
